@@ -310,7 +310,89 @@ def check_adm(run: Run, prog: Program) -> None:
               "the admission check and the distribution see different data", node=fn.node, file=fn.file)
 
 
+def check_adm_order(run: Run, prog: Program) -> None:
+    """Order-domain: whatever _check_request lets through is inside the enforced bounds."""
+    from ._admission import explore_admission
+    from .c03 import _report_orderings
+
+    def post(it, res, ctx):
+        P, zero = ctx["P"], ctx["zero"]
+        rejected = getattr(res, "cls", None) == "OutOfBounds"
+        if rejected or res is not None:
+            return None
+        if it.entails("=", P, zero):
+            return None  # zero requests are always forwarded
+        bad = []
+        in_zone = [("<", ctx["el"], P), ("<", P, ctx["eu"])]
+        for nz in ([("<", P, zero)], [("<", zero, P)]):
+            if it.possible(in_zone + nz):
+                bad.append("a non-zero request strictly inside the exclusion zone is admitted")
+        if not ctx["adjust"]:
+            if it.possible([("<", P, ctx["il"])]) or it.possible([("<", ctx["iu"], P)]):
+                bad.append("a non-adjustable request outside the inclusion bounds is admitted")
+        return ("bad", sorted(set(bad))) if bad else None
+
+    fn, outs = explore_admission(prog, post)
+    run.analysed(fn.qual)
+    _report_orderings(run, "C02.ADM", fn, outs, "an admitted request lies outside the exclusion zone "
+                      "(and, when not adjustable, inside the inclusion bounds)")
+    if len(outs) < 10:
+        raise AnalysisError(f"{fn.qual}: only {len(outs)} abstract paths")
+    # the bounds used are the aggregated ones of the same data, and rejection carries them
+    txt = u(fn.node).replace(" ", "")
+    run.check("bounds=self._get_bounds(pairs_data)" in txt and "power=request.power.as_watts()" in txt,
+              "C02.ADM", fn.qual, "bounds from _get_bounds(pairs_data); power from the request",
+              "the admission check does not compare the request's power with the bounds aggregated from "
+              "the same component data", node=fn.node, file=fn.file)
+
+
+def check_pure(run: Run, prog: Program) -> None:
+    """The distribution algorithm keeps no state between calls (bounds are never memoised)."""
+    cls = prog.cls(BDA)
+    n = 0
+    for m in cls.methods.values():
+        if m.name == "__init__":
+            continue
+        n += 1
+        bad = []
+        for node in body_walk(m.node):
+            tgts = []
+            if isinstance(node, ast.Assign):
+                tgts = node.targets
+            elif isinstance(node, (ast.AugAssign, ast.AnnAssign)):
+                tgts = [node.target]
+            for t in tgts:
+                for x in ast.walk(t):
+                    if isinstance(x, ast.Attribute) and u(x.value) == "self":
+                        bad.append(node)
+            if isinstance(node, ast.Call) and isinstance(node.func, ast.Attribute) and isinstance(
+                    node.func.value, ast.Attribute) and u(node.func.value.value) == "self" and node.func.attr in (
+                    "append", "update", "setdefault", "add", "extend", "pop", "clear", "insert"):
+                bad.append(node)
+        for b in bad:
+            run.violation("C02.PURE", m.qual, b,
+                          "the distribution algorithm stores state on the long-lived instance: results of "
+                          "a later call can depend on bounds/data of an earlier one (stale bounds after a "
+                          "battery derates)", node=b, file=m.file)
+        if not bad:
+            run.ok("C02.PURE", f"{m.qual}: writes no instance state")
+    if n < 8:
+        raise AnalysisError("C02.PURE: BatteryDistributionAlgorithm methods not found")
+
+
 CONTROLS = [
+    ("admission forgets the exclusion zone when not adjusting",
+     "microgrid._power_distributing._component_managers._battery_manager",
+     "            if not (in_lower_range or in_upper_range):",
+     "            if not (bounds.inclusion_lower <= power <= bounds.inclusion_upper):", "C02.ADM"),
+    ("exclusion test closed on one edge for adjustable requests",
+     "microgrid._power_distributing._component_managers._battery_manager",
+     "            if bounds.exclusion_lower < power < bounds.exclusion_upper:",
+     "            if bounds.exclusion_lower < power < bounds.exclusion_lower:", "C02.ADM"),
+    ("memoised bounds", MOD,
+     "        incl_bounds: dict[int, float] = {}\n        excl_bounds: dict[int, float] = {}\n        for battery, inverters in components:\n            if supply:",
+     "        self._last_components = components\n        incl_bounds: dict[int, float] = {}\n        excl_bounds: dict[int, float] = {}\n        for battery, inverters in components:\n            if supply:",
+     "C02.PURE"),
     ("available SoC clamp removed", MOD,
      "            available_soc[battery.component_id] = max(\n                0.0, battery.soc_upper_bound - battery.soc\n            )",
      "            available_soc[battery.component_id] = (\n                battery.soc_upper_bound - battery.soc\n            )",
@@ -337,6 +419,8 @@ def run_rules(run: Run, prog: Program) -> None:
     check_inv(run, prog)
     check_avail(run, prog)
     check_adm(run, prog)
+    check_adm_order(run, prog)
+    check_pure(run, prog)
 
 
 def check(run: Run, prog: Program, tier: str) -> str:
@@ -346,12 +430,15 @@ def check(run: Run, prog: Program, tier: str) -> str:
              "min(incl[i], remaining); otherwise zero")
     run.rule("C02.AVAIL", "SoC headroom is clamped at zero per direction and every non-zero "
              "allocation is control-dependent on that set's own availability ratio")
-    run.rule("C02.ADM", "the admission check dominates the distribution and its error is returned")
+    run.rule("C02.ADM", "the admission check dominates the distribution, its error is returned, and (order "
+             "domain) whatever it admits is outside the exclusion zone / inside the inclusion bounds")
+    run.rule("C02.PURE", "the distribution algorithm writes no instance state outside __init__")
     run_rules(run, prog)
     run.floor("C02.CAP", 4)
     run.floor("C02.INV", 4)
     run.floor("C02.AVAIL", 7)
-    run.floor("C02.ADM", 3)
+    run.floor("C02.ADM", 12)
+    run.floor("C02.PURE", 8)
     from ..engine.controls import run_controls
 
     run_controls(run, CONTROLS, run_rules, tier)
